@@ -25,11 +25,14 @@ def register_driver(prefix, script):
     DRIVERS.append((prefix, script))
 
 
-def run_driver(script, request, timeout=600):
+def run_driver(script, request, timeout=300):
     env = dict(os.environ)
     env['PYTHONPATH'] = REPO + os.pathsep + env.get('PYTHONPATH', '')
-    p = subprocess.run([VENV_PY, os.path.join(VERIF_DIR, 'replay', script)], input=json.dumps(request, default=str),
-                       capture_output=True, text=True, timeout=timeout, env=env, cwd='/')
+    try:
+        p = subprocess.run([VENV_PY, os.path.join(VERIF_DIR, 'replay', script)], input=json.dumps(request, default=str),
+                           capture_output=True, text=True, timeout=timeout, env=env, cwd='/')
+    except subprocess.TimeoutExpired:
+        return {'reproduced': False, 'detail': f'driver timed out after {timeout} s'}
     out = p.stdout.strip().splitlines()
     try:
         return json.loads(out[-1])
